@@ -59,6 +59,32 @@ type idp struct {
 	mu     sync.Mutex
 	script map[string]c.Answer // refresh, validate, redeem, userinfo
 	calls  []idpCall
+	// batch mode: answers by token, and a barrier that holds every validate/refresh call until
+	// [expect] of them have arrived or [holdFor] has passed since the call arrived
+	byTok   map[string]c.Answer // "validate:<access token>" / "refresh:<refresh token>"
+	expect  int
+	arrived int
+	release chan struct{}
+	holdFor time.Duration
+}
+
+// batch switches the IdP to answer by token and to hold calls (expect <= 0: no barrier)
+func (f *idp) batch(byTok map[string]c.Answer, expect int, holdFor time.Duration) {
+	f.mu.Lock()
+	f.script = map[string]c.Answer{}
+	f.byTok = byTok
+	f.calls = nil
+	f.expect = expect
+	f.arrived = 0
+	f.release = make(chan struct{})
+	f.holdFor = holdFor
+	f.mu.Unlock()
+}
+
+func (f *idp) arrivals() int {
+	f.mu.Lock()
+	defer f.mu.Unlock()
+	return f.arrived
 }
 
 func newIdp() *idp {
@@ -78,6 +104,15 @@ func newIdp() *idp {
 			kind, arg = "validate", r.Form.Get("access_token")
 		case strings.HasSuffix(r.URL.Path, "/introspect"):
 			kind, arg = "validate", r.Form.Get("token")
+		case strings.HasSuffix(r.URL.Path, "/userInfo"): // cognito: profile AND validation endpoint
+			f.mu.Lock()
+			_, redeeming := f.script["userinfo"]
+			f.mu.Unlock()
+			if redeeming {
+				kind = "userinfo"
+			} else {
+				kind, arg = "validate", strings.TrimPrefix(r.Header.Get("Authorization"), "Bearer ")
+			}
 		case strings.HasSuffix(r.URL.Path, "/userinfo"):
 			kind = "userinfo"
 		default:
@@ -88,7 +123,25 @@ func newIdp() *idp {
 			f.calls = append(f.calls, idpCall{kind, arg})
 		}
 		a, ok := f.script[kind]
+		var release chan struct{}
+		var holdFor time.Duration
+		if f.byTok != nil && (kind == "validate" || kind == "refresh") {
+			a, ok = f.byTok[kind+":"+arg]
+			if f.expect > 0 {
+				f.arrived++
+				if f.arrived == f.expect {
+					close(f.release)
+				}
+				release, holdFor = f.release, f.holdFor
+			}
+		}
 		f.mu.Unlock()
+		if release != nil {
+			select {
+			case <-release:
+			case <-time.After(holdFor):
+			}
+		}
 		if !ok {
 			a = c.Answer{Status: 404}
 		}
@@ -115,6 +168,8 @@ func newIdp() *idp {
 func (f *idp) set(s map[string]c.Answer) {
 	f.mu.Lock()
 	f.script = s
+	f.byTok = nil
+	f.expect = 0
 	f.calls = nil
 	f.mu.Unlock()
 }
